@@ -45,6 +45,8 @@ def _dictnull(entry):
 BOUNDED = [
     dict(id="KF13", property="C01", clause="roundtrip", what=DEDUCTIVE[0]["what"], match=_dictnull),
     dict(id="KF13", property="C02", clause="bytes_equal_spec", what=DEDUCTIVE[0]["what"], match=_dictnull),
+    dict(id="KF13", property="C04", clause="file_roundtrip", what=DEDUCTIVE[0]["what"], match=_dictnull),
+    dict(id="KF13", property="C05", clause="layout_of_written_file", what=DEDUCTIVE[0]["what"], match=_dictnull),
 ]
 
 FIXED = [
@@ -53,6 +55,8 @@ FIXED = [
     "fixed: property=C17 7e18589 json_reader consumed array/map/record field defaults of the schema in place "
     "(second read of a document omitting the field returned an empty value; the caller's schema dict was modified); "
     "also violates C15 (absent fields take their defaults) and C18",
+    "fixed: property=C07 056bc62 a record rejected part-way by Writer.write left its first fields in the block buffer "
+    "(history [write ok, write {'a': 7, 's': 3} fails, write ok, flush]: next record read back shifted / file undecodable)",
     "fixed: property=C18 6c01e0c read_decimal set the precision on a module-level decimal Context and then used it "
     "(schedule: A sets prec=9, B reads a precision-2 decimal, A resumes and returns 1.2E+6 for 1234567.89)",
 ]
